@@ -1,6 +1,6 @@
 """C04 - terminal statuses are final; forbidden status requests have no effect."""
 from ovf.props.common import batches, scale, ASSUME_SIM
-from ovf.workloads import conduct, mon  # noqa: F401
+from ovf.workloads import conduct, corpus, mon  # noqa: F401
 from ovf.props.reqsweep import request_sweep  # noqa: F401
 
 LEVEL = "exploration"
@@ -27,6 +27,8 @@ def jobs(tier, seed):
                                                                 reqs=["canceling", "canceled", "pausing"]), name="late-reports")
     js += batches("request_sweep", scale(tier, 60, 1200), scale(tier, 5, 30), gen="mix", p_loop=0.2, gseed=seed + 11,
                   P=dict(P, nmax=5, p_items=0.3), name="request-sweep")
+    # the repository's own fixture definitions under generated outcomes, schedules and requests
+    js += [dict(fn="corpus", parts=4, part=i, runs=scale(tier, 4, 40), gseed=seed, ctl=dict(crash=0.04, early_render=0.5), name="corpus") for i in range(4)]
     return js
 
 
